@@ -121,12 +121,16 @@ static std::string describe_op(vf::fs_op const& op)
     }
 }
 
+// files other than the checkpoint file that a run writes (temporary files), learnt from a first run
+static std::set<std::string> g_side_files;
+
 template <typename T, int K>
-static void scenario(report& r, int mode, bool preexisting)
+static void scenario(report& r, int mode, bool preexisting, bool leftover = false)
 {
     using Kt = kit<T, K>;
     using C = typename Kt::C;
-    std::string const base = std::string(vf::type_name<T>()) + " kind=" + std::to_string(K) + " mode=" + std::to_string(mode) + " preexisting=" + std::to_string(preexisting);
+    std::string const base = std::string(vf::type_name<T>()) + " kind=" + std::to_string(K) + " mode=" + std::to_string(mode) + " preexisting=" + std::to_string(preexisting)
+        + (leftover ? " leftover=1" : "");
     if (!r.want_prefix(base.substr(0, std::min(base.size(), r.a().replay_case.size())))) return;
     hep::callback_mode const cm = mode == 0 ? hep::callback_mode::silent_and_write_chkpt : hep::callback_mode::verbose_and_write_chkpt;
 
@@ -140,6 +144,12 @@ static void scenario(report& r, int mode, bool preexisting)
     std::string const final_text = golden.back();
     std::map<std::string, std::string> initial;
     if (preexisting) initial[g_chk] = golden[0];
+    // an earlier run that was killed while writing may have left a partial temporary file behind
+    if (leftover) for (auto const& f : g_side_files) initial[f] = golden[1].substr(0, golden[1].size() / 2);
+    auto prepare_dir = [&]() {
+        clear_dir();
+        for (auto const& f : initial) put_file(f.first, f.second);
+    };
 
     auto do_run = [&]() {
         std::ostringstream sink;
@@ -151,8 +161,7 @@ static void scenario(report& r, int mode, bool preexisting)
     };
 
     // the logged run
-    clear_dir();
-    if (preexisting) put_file(g_chk, golden[0]);
+    prepare_dir();
     vf::fs() = vf::fs_state();
     vf::fs().dir = g_dir; vf::fs().active = true;
     std::string const ret = do_run();
@@ -171,6 +180,7 @@ static void scenario(report& r, int mode, bool preexisting)
         }
     }
     if (log.empty()) { std::fprintf(stderr, "HARNESS: no file system operation was logged\n"); std::exit(2); }
+    for (auto const& op : log) if (op.kind == vf::fs_open && op.path != g_chk) g_side_files.insert(op.path);
     r.count("logged_operations", log.size());
 
     // iteration being written at log position i
@@ -248,8 +258,7 @@ static void scenario(report& r, int mode, bool preexisting)
             }
             for (sz b : prefixes)
             {
-                clear_dir();
-                if (preexisting) put_file(g_chk, golden[0]);
+                prepare_dir();
                 pid_t const pid = fork();
                 if (pid == 0)
                 {
@@ -295,6 +304,9 @@ static void for_type(report& r)
         scenario<T, 0>(r, mode, pre != 0);
         scenario<T, 1>(r, mode, pre != 0);
         scenario<T, 2>(r, mode, pre != 0);
+        // the same with partial temporary files left behind by an earlier killed run
+        scenario<T, 0>(r, mode, pre != 0, true);
+        scenario<T, 1>(r, mode, pre != 0, true);
         if (r.deadline_hit()) return;
     }
 }
